@@ -543,4 +543,115 @@ theorem Bal.dropAll (n : Nat) : ∀ (ds : List Nat) {h : Heap} {U : Nat → Nat}
       · simp only [hx, if_false]; rw [List.count_cons_of_ne (Ne.symm hx)]
     rw [← heq]; exact h2
 
+/-! ### allocation -/
+
+theorem slotCount_bufs_only (sel : Obj → List (Option Nat)) {h : Heap} {Z : List Nat} (x : Nat) (bufs' : Nat → Option Buf) (nb : Nat) :
+    slotCount sel { h with bufs := bufs', nbuf := nb } Z x = slotCount sel h Z x := rfl
+
+/-- a fresh buffer, held by the code that allocated it -/
+theorem Bal.allocBuf {h : Heap} {U : Nat → Nat} {P PB Z : List Nat} (hb : Bal h U P PB Z) (bf : Buf) :
+    Bal { h with bufs := upd h.bufs h.nbuf (some bf), nbuf := h.nbuf + 1 } U P (h.nbuf :: PB) Z := by
+  have hfree : h.bufs h.nbuf = none := by
+    cases hv : h.bufs h.nbuf with
+    | none => rfl
+    | some _ => have := hb.bufBound h.nbuf (by simp [hv]); omega
+  obtain ⟨hd1, hd2⟩ := hb.bufDead _ hfree
+  refine ⟨hb.ok, hb.live, hb.bound, hb.dead, ?_, ?_, ?_⟩
+  · intro b hv
+    by_cases hbn : b = h.nbuf
+    · subst hbn
+      simp only [List.count_cons_self]
+      show PB.count h.nbuf + 1 + bufCount h Z h.nbuf = 1
+      omega
+    · simp only [upd, hbn, if_false] at hv
+      rw [List.count_cons_of_ne (Ne.symm hbn)]
+      exact hb.bufLive b hv
+  · intro b hv
+    have hbn : b ≠ h.nbuf := by rintro rfl; simp at hv
+    simp only [upd, hbn, if_false] at hv
+    rw [List.count_cons_of_ne (Ne.symm hbn)]
+    exact hb.bufDead b hv
+  · intro b hv
+    by_cases hbn : b = h.nbuf
+    · subst hbn; show h.nbuf < h.nbuf + 1; omega
+    · simp only [upd, hbn, if_false] at hv
+      have := hb.bufBound b hv
+      show b < h.nbuf + 1; omega
+
+/-- publishing a new object whose slots are exactly what the allocating code holds -/
+theorem Bal.allocObj {h : Heap} {U : Nat → Nat} {P PB : List Nat} {c : Obj}
+    (hb : Bal h U (c.refs.filterMap id ++ P) (c.bufs.filterMap id ++ PB) [])
+    (hd : c.destroy = true) (hc : c.copy = true) (hrc : c.rc = 1)
+    (hr : ∀ r, some r ∈ c.refs → r < h.nobj) (hv : ∀ v, some v ∈ c.views → some v ∈ c.bufs) :
+    Bal { h with objs := upd h.objs h.nobj (some c), nobj := h.nobj + 1 } U (h.nobj :: P) PB [] := by
+  have hfree : h.objs h.nobj = none := by
+    cases hv : h.objs h.nobj with
+    | none => rfl
+    | some _ => have := hb.bound h.nobj (by simp [hv]); omega
+  have hC : ∀ (sel : Obj → List (Option Nat)) y,
+      slotCount sel { h with objs := upd h.objs h.nobj (some c), nobj := h.nobj + 1 } [] y = slotCount sel h [] y + (sel c).count (some y) := by
+    intro sel y
+    show sumTo (h.nobj + 1) _ = _
+    simp only [sumTo]
+    congr 1
+    · apply sumTo_congr
+      intro j hj
+      have : j ≠ h.nobj := by omega
+      simp [slotAt, upd, this]
+    · simp [slotAt]
+  obtain ⟨hU, hPc, hRc⟩ := hb.dead _ (Or.inl hfree)
+  rw [List.count_append, count_filterMap_id] at hPc
+  have hself : c.refs.count (some h.nobj) = 0 := by omega
+  refine ⟨hb.ok, ?_, ?_, ?_, ?_, ?_, hb.bufBound⟩
+  · intro y oy hy _
+    by_cases hyn : y = h.nobj
+    · subst hyn
+      simp only [upd_same, Option.some.injEq] at hy
+      subst hy
+      refine ⟨hd, hc, ?_, by omega, hr, hv⟩
+      rw [show refCount _ [] h.nobj = refCount h [] h.nobj + c.refs.count (some h.nobj) from hC _ _]
+      simp only [List.count_cons_self]
+      have : refCount h [] h.nobj = 0 := hRc
+      omega
+    · simp only [upd, hyn, if_false] at hy
+      obtain ⟨h1, h2, h3, h4, h5, h6⟩ := hb.live y oy hy (by simp)
+      refine ⟨h1, h2, ?_, h4, h5, h6⟩
+      rw [show refCount _ [] y = refCount h [] y + c.refs.count (some y) from hC _ _]
+      rw [List.count_cons_of_ne (Ne.symm hyn)]
+      rw [List.count_append, count_filterMap_id] at h3
+      omega
+  · intro y hy
+    by_cases hyn : y = h.nobj
+    · subst hyn; show h.nobj < h.nobj + 1; omega
+    · simp only [upd, hyn, if_false] at hy
+      have := hb.bound y hy
+      show y < h.nobj + 1; omega
+  · intro y hy
+    have hyn : y ≠ h.nobj := by
+      rintro rfl
+      rcases hy with hy | hy
+      · simp at hy
+      · simp at hy
+    have hy' : h.objs y = none ∨ y ∈ ([] : List Nat) := by
+      rcases hy with hy | hy
+      · left; simpa [upd, hyn] using hy
+      · simp at hy
+    obtain ⟨h1, h2, h3⟩ := hb.dead y hy'
+    rw [List.count_append, count_filterMap_id] at h2
+    refine ⟨h1, ?_, ?_⟩
+    · rw [List.count_cons_of_ne (Ne.symm hyn)]; omega
+    · rw [show refCount _ [] y = refCount h [] y + c.refs.count (some y) from hC _ _]
+      have : refCount h [] y = 0 := h3
+      omega
+  · intro b hbv
+    have := hb.bufLive b hbv
+    rw [List.count_append, count_filterMap_id] at this
+    rw [show bufCount _ [] b = bufCount h [] b + c.bufs.count (some b) from hC _ _]
+    omega
+  · intro b hbv
+    have := hb.bufDead b hbv
+    rw [List.count_append, count_filterMap_id] at this
+    rw [show bufCount _ [] b = bufCount h [] b + c.bufs.count (some b) from hC _ _]
+    omega
+
 end Sqfs.Obj
